@@ -9,8 +9,10 @@ package verifsim2
 import (
 	"context"
 	"fmt"
+	"github.com/thushan/olla/internal/core/domain"
 	"io"
 	"log/slog"
+	"net/url"
 	"strings"
 	"time"
 
@@ -85,7 +87,11 @@ func (propC08) Gen(seed uint64, tier string, idx int) *Plan2 {
 		if length == 0 {
 			// beyond the exhaustive range: random long history
 			for l := 10 + r.n(50); l > 0; l-- {
-				word = append(word, c08Alpha[r.n(n)])
+				w := c08Alpha[r.n(n)]
+				if kind == "olla" && w == "W>" && r.n(3) == 0 {
+					w = "W6" // long enough for the engine's own 5-minute housekeeping to run in between
+				}
+				word = append(word, w)
 			}
 			p.Sub = kind + "/seq-random-long"
 		} else {
@@ -107,9 +113,22 @@ func (propC08) Gen(seed uint64, tier string, idx int) *Plan2 {
 		}
 		ops = append(ops, Op{K: "W>"}, Op{K: "A"}, Op{K: "S"}, Op{K: "A"}) // liveness tail: wait, ask, succeed, ask
 		p.Tasks = [][]Op{ops}
+	case mode == 2 && kind == "unifier" && r.n(2) == 0:
+		// the breaker as the registry uses it: through LifecycleUnifier.UnifyModels (ask + success in one) and
+		// RecordEndpointFailure, with some callers whose context has already ended (the registry unifies on
+		// background goroutines under request-scoped contexts). Asserted: it never stays shut for ever.
+		p.Params["via"] = "lifecycle"
+		for l := 6 + r.n(40); l > 0; l-- {
+			p.Tasks = append(p.Tasks[:0], append(firstOr(p.Tasks), Op{K: []string{"F", "F", "S", "C", "C", "W<", "W>"}[r.n(7)]}))
+		}
+		p.Sub = kind + "/lifecycle"
 	case mode == 2:
 		for l := 8 + r.n(50); l > 0; l-- {
-			p.Tasks = append(p.Tasks[:0], append(firstOr(p.Tasks), Op{K: c08Alpha[r.n(len(c08Alpha))]}))
+			w := c08Alpha[r.n(len(c08Alpha))]
+			if kind == "olla" && w == "W>" && r.n(3) == 0 {
+				w = "W6"
+			}
+			p.Tasks = append(p.Tasks[:0], append(firstOr(p.Tasks), Op{K: w}))
 		}
 		p.Sub = kind + "/seq-random"
 	default:
@@ -165,8 +184,9 @@ func c08Build(p *Plan2) (breakerAPI, refParams) {
 		if err != nil {
 			panic(err)
 		}
-		cb := svc.GetCircuitBreaker("ep")
-		return breakerAPI{ask: func() bool { return !cb.IsOpen() }, fail: cb.RecordFailure, succeed: cb.RecordSuccess, close: svc.Cleanup},
+		// looked up per call, as the engine does per request: housekeeping may replace the object
+		return breakerAPI{ask: func() bool { return !svc.GetCircuitBreaker("ep").IsOpen() }, fail: func() { svc.GetCircuitBreaker("ep").RecordFailure() },
+				succeed: func() { svc.GetCircuitBreaker("ep").RecordSuccess() }, close: svc.Cleanup},
 			refParams{kind: "olla", T: 0, D: health.DefaultCircuitBreakerTimeout}
 	case "unifier":
 		cfg := unifier.CircuitBreakerConfig{Enabled: true, FailureThreshold: p.Int("T", 3), SuccessThreshold: p.Int("ST", 1), HalfOpenRequests: p.Int("N", 1), OpenDuration: time.Duration(p.Int("Dms", 1000)) * time.Millisecond}
@@ -342,6 +362,19 @@ func (r *ref) succeed(now time.Duration) {
 	r.dedup()
 }
 
+// idle: minutes without any traffic. The statement says when a breaker may open, hold and close; it does not
+// say that a closed breaker remembers a partial failure count across idle housekeeping, so after such a pause
+// a closed breaker may also have forgotten it. An open breaker must still be known (hold / re-open clauses).
+func (r *ref) idle() {
+	for _, s := range r.states {
+		if !s.open && s.consec > 0 {
+			s.consec = 0
+			r.states = append(r.states, s)
+		}
+	}
+	r.dedup()
+}
+
 // ask filters the state set with the observed answer; returns a description of what was possible when nothing matches.
 func (r *ref) ask(now time.Duration, admitted bool) (ok bool, expect string) {
 	var out []refState
@@ -369,6 +402,10 @@ func orEither(s string) string {
 // ---- execution ---------------------------------------------------------------
 
 func (propC08) Exec(p *Plan2, res *Result2) {
+	if p.Str("via", "") == "lifecycle" {
+		c08Lifecycle(p, res)
+		return
+	}
 	api, rp := c08Build(p)
 	defer api.close()
 	kind := rp.kind
@@ -386,6 +423,8 @@ func (propC08) Exec(p *Plan2, res *Result2) {
 			time.Sleep(rp.D + time.Second/2)
 		case "Wp":
 			time.Sleep(1100 * time.Millisecond)
+		case "W6":
+			time.Sleep(6 * time.Minute)
 		}
 	}
 	if !race {
@@ -418,6 +457,9 @@ func (propC08) Exec(p *Plan2, res *Result2) {
 				}
 			default:
 				wait(op.K)
+				if op.K == "W6" {
+					rf.idle()
+				}
 				res.Hist = append(res.Hist, fmt.Sprintf("%d t=%s wait %s", i, now(), op.K))
 			}
 		}
@@ -546,4 +588,65 @@ func (propC08) Exec(p *Plan2, res *Result2) {
 		res.probe("c08.race-history-linearizable")
 	}
 	_ = context.Background
+}
+
+// c08Lifecycle drives the unification breaker the way the registry does and asserts the liveness clause:
+// once the endpoint works again (every call succeeds), a caller is admitted within a few open periods.
+func c08Lifecycle(p *Plan2, res *Result2) {
+	cfg := unifier.DefaultConfig()
+	cfg.EnableBackgroundCleanup = false
+	cfg.CircuitBreaker = unifier.CircuitBreakerConfig{Enabled: true, FailureThreshold: p.Int("T", 3), SuccessThreshold: p.Int("ST", 1), HalfOpenRequests: p.Int("N", 1), OpenDuration: time.Duration(p.Int("Dms", 1000)) * time.Millisecond}
+	cfg.MaxConsecutiveFailures = cfg.CircuitBreaker.FailureThreshold + 1
+	u := unifier.NewLifecycleUnifier(cfg, quiet())
+	lu, ok := u.(interface {
+		RecordEndpointFailure(endpointURL string, err error)
+	})
+	if !ok {
+		res.Err = "LifecycleUnifier has no RecordEndpointFailure"
+		return
+	}
+	ur, _ := url.Parse("http://b1:8000")
+	ep := &domain.Endpoint{Name: "b1", URL: ur, URLString: ur.String(), Type: "ollama", Status: domain.StatusHealthy}
+	models := []*domain.ModelInfo{{Name: "m1"}}
+	start := time.Now()
+	now := func() time.Duration { return time.Since(start) }
+	D := cfg.CircuitBreaker.OpenDuration
+	call := func(ctx context.Context) (admitted bool, err error) {
+		_, err = u.UnifyModels(ctx, models, ep)
+		return err == nil || !strings.Contains(err.Error(), "circuit breaker open"), err
+	}
+	for i, op := range firstOr(p.Tasks) {
+		switch op.K {
+		case "F":
+			lu.RecordEndpointFailure(ep.URLString, fmt.Errorf("scripted failure"))
+			res.Hist = append(res.Hist, fmt.Sprintf("%d t=%s failure", i, now()))
+		case "S":
+			adm, err := call(context.Background())
+			res.Hist = append(res.Hist, fmt.Sprintf("%d t=%s unify -> admitted=%v err=%v", i, now(), adm, err))
+		case "C":
+			ctx, cancel := context.WithCancel(context.Background())
+			cancel()
+			adm, err := call(ctx)
+			res.Hist = append(res.Hist, fmt.Sprintf("%d t=%s unify(context already ended) -> admitted=%v err=%v", i, now(), adm, err))
+		case "W<":
+			time.Sleep(D / 3)
+		case "W>":
+			time.Sleep(D + time.Second/2)
+		}
+	}
+	// the endpoint works from now on: one caller per open period, each with a live context
+	rounds := cfg.CircuitBreaker.HalfOpenRequests + cfg.CircuitBreaker.SuccessThreshold + 3
+	admittedLast := false
+	for k := 0; k < rounds; k++ {
+		time.Sleep(D + time.Second/2)
+		adm, err := call(context.Background())
+		admittedLast = adm
+		res.Hist = append(res.Hist, fmt.Sprintf("recovery round %d t=%s unify -> admitted=%v err=%v", k, now(), adm, err))
+	}
+	if !admittedLast {
+		res.add("C08", "C08/unifier/shut-for-ever", "after the endpoint had been working for %d open periods (one caller per period) unification is still refused: %v", rounds, res.Hist)
+	}
+	res.Steps = len(firstOr(p.Tasks))
+	res.Sig = histHash(res.Hist, nil)
+	res.Nontrivial = true
 }
